@@ -434,6 +434,12 @@ func serveLoop(e *Env, prop string) {
 					return
 				}
 				s := parseSrv(c.S.TS)
+				// the context goes back to the pool on every exit (deferred putRequestContext) and
+				// no Reset clears the hijack handler: it must be taken off the context before any
+				// exit that follows the handler
+				if (s.phase == "handled" || s.phase == "written" || s.phase == "flushed") && !s.hjClear {
+					viol(c, "order", c.S.Ret, "exit-"+s.phase+":hijack-not-cleared", "the function can return after the handler ran (phase "+s.phase+") without SetHijackHandler(nil): the pooled context keeps the handler and the next connection that gets it is hijacked")
+				}
 				switch s.phase {
 				case "handled":
 					viol(c, "loop", c.S.Ret, "exit-handled", "function returns after the handler ran without writing a response")
